@@ -95,9 +95,14 @@ func (o *obj) Close() error {
 
 func (o *obj) TryClose(time.Duration) (bool, error) {
 	o.w.ev(event{Kind: "try-start", Id: o.id, Inst: o.inst})
-	if o.w.ctl.Choose("tryclose:"+o.id, 2) == 0 {
+	switch o.w.ctl.Choose("tryclose:"+o.id, 3) {
+	case 0:
 		o.w.ev(event{Kind: "try-true", Id: o.id, Inst: o.inst, Op: o.w.ctl.Me()})
 		return true, nil
+	case 2:
+		// closed, but closing reported an error (what every real object does: `return true, x.Close()`)
+		o.w.ev(event{Kind: "try-true", Id: o.id, Inst: o.inst, Op: o.w.ctl.Me(), Res: "with-error"})
+		return true, errClose
 	}
 	o.w.ev(event{Kind: "try-false", Id: o.id, Inst: o.inst})
 	return false, nil
@@ -106,6 +111,7 @@ func (o *obj) TryClose(time.Duration) (bool, error) {
 type cancelKey struct{}
 
 var errLoad = errors.New("load failed")
+var errClose = errors.New("close failed")
 
 func (w *world) load(ctx context.Context, id string) (ocache.Object, error) {
 	o := w.newObj(id)
